@@ -44,7 +44,7 @@ type c12Canon struct {
 
 func runC12(r *core.Run) {
 	firstCallClause(r, "sequtil.ReverseComplement", "sequtil.CanonicalSubsequences")
-	defer racePass(r, "race-sequtil", "ReverseComplement(String), DNATo2Bit/From2Bit, Translate(ReadingFrames), CanonicalSubsequences, AminoName on one shared src")
+	racePass(r, "race-sequtil", "ReverseComplement(String), DNATo2Bit/From2Bit, Translate(ReadingFrames), CanonicalSubsequences, AminoName on one shared src")
 
 	L := core.Pick(r, 4, 7)
 	r.Bound("revcomp", fmt.Sprintf("all sequences over %s of length 0..%d x 3 dst variants", dna10, L))
@@ -363,6 +363,58 @@ func runC12(r *core.Run) {
 					for k := 1; k <= 70; k++ {
 						if !emit(c12Canon{core.S(b), k}) {
 							return
+						}
+					}
+				}
+			}
+		}, checkCanon)
+
+	// Which of a k-mer and its reverse complement is smaller is decided at the first position where
+	// the two differ. k-mers built so that this position is p, for every p up to the middle: the two
+	// agree on their first p letters (the k-mer ends in the reverse complement of its beginning - a
+	// stem-loop), then hold a given pair of letters. A comparison that looks at a prefix only, or takes
+	// words at a time, or stops early, goes wrong for some p.
+	KD := core.Pick(r, 40, 72)
+	r.Bound("canonical-decisive-position", fmt.Sprintf("k in 1..%d x the deciding position p in 0..(k-1)/2 x every pair of letters from {A,C,G,T,N,a,t} at p and at its mirror position that makes the two strands differ there x 3 stems (aperiodic, poly-A, ACGT repeated) x 3 loop fillings (A, T, aperiodic); each k-mer alone and with two flanking bases on each side", KD))
+	core.Clause(r, "canonical-decisive-position", core.Opts{Rule: "stem-loop k-mers whose comparison with their reverse complement is decided exactly at position p, for every p up to the middle of the k-mer: count, each item vs reference (bytewise comparison over the whole k-mer), strand independence; non-trivial = all"},
+		func(emit func(c12Canon) bool) {
+			ap := make([]byte, 80)
+			x := uint64(0x2545F4914F6CDD1D)
+			for i := range ap {
+				x ^= x << 13
+				x ^= x >> 7
+				x ^= x << 17
+				ap[i] = "ACGT"[x>>62]
+			}
+			letters := "ACGTNat"
+			for k := 1; k <= KD; k++ {
+				for p := 0; p <= (k-1)/2; p++ {
+					for stem := 0; stem < 3; stem++ {
+						for fill := 0; fill < 3; fill++ {
+							for _, a := range []byte(letters) {
+								for _, b := range []byte(letters) {
+									km := make([]byte, k)
+									for i := range km {
+										km[i] = [][]byte{[]byte("A"), []byte("T"), ap[40:]}[fill][i%[]int{1, 1, 40}[fill]]
+									}
+									for i := 0; i < p; i++ {
+										km[i] = [][]byte{ap, []byte("A"), []byte("ACGT")}[stem][i%[]int{40, 1, 4}[stem]]
+									}
+									if k-1-p != p {
+										km[k-1-p] = b
+									}
+									km[p] = a
+									head, _ := ref.RevComp(km[:p])
+									copy(km[k-p:], head)
+									rc, _ := ref.RevComp(km)
+									if rc[p] == km[p] {
+										continue // the strands agree at p: not decided there
+									}
+									if !emit(c12Canon{core.S(km), k}) || !emit(c12Canon{core.S("GA" + string(km) + "TC"), k}) {
+										return
+									}
+								}
+							}
 						}
 					}
 				}
